@@ -63,7 +63,10 @@ func vJSONOp(t []string) string {
 		return vHex(buf.Bytes()) + " " + vValid(buf.Bytes())
 	case "metrics":
 		mt := NewMetricTable(1000000, time.Unix(int64(vNat(t, 3)), 0))
-		type key struct{ n, s string }
+		type key struct {
+			n, s string
+			d    [6]float64
+		}
 		var keys []key
 		if rs := vStr(t, 5); rs != "-" && rs != "" {
 			for _, r := range strings.Split(rs, ";") {
@@ -75,7 +78,7 @@ func vJSONOp(t []string) string {
 					}
 				}
 				n, s := string(vUnhex(f[0])), string(vUnhex(f[1]))
-				keys = append(keys, key{n, s})
+				keys = append(keys, key{n, s, d})
 				mt.AddRaw(nil, n, s, d, Forced)
 			}
 		}
@@ -107,7 +110,19 @@ func vJSONOp(t []string) string {
 						ks, _ := json.Marshal(k.s)
 						var backs string
 						json.Unmarshal(ks, &backs)
-						if !used[i] && back == id.Name && backs == id.Scope {
+						// two distinct names can decode to the same text (invalid UTF-8 becomes U+FFFD): tell them apart by their values
+						sameVals := true
+						if len(row) > 1 {
+							var vals []float64
+							if json.Unmarshal(row[1], &vals) == nil && len(vals) == 6 {
+								for j := 0; j < 6; j++ {
+									if vals[j] != k.d[j] {
+										sameVals = false
+									}
+								}
+							}
+						}
+						if !used[i] && back == id.Name && backs == id.Scope && sameVals {
 							used[i] = true
 							idx = append(idx, strconv.Itoa(i))
 							break
